@@ -19,7 +19,7 @@ use rand::Rng as _;
 use redis_sim::production::ShardedActorState;
 use redis_sim::redis::{Command, RespValue, SDS};
 use serde_json::{json, Value};
-use std::collections::{BTreeMap, HashMap};
+use std::collections::{BTreeMap, HashSet};
 use std::sync::atomic::{AtomicU64, Ordering};
 use std::sync::Arc;
 use vharness::util::*;
@@ -171,21 +171,18 @@ struct Window {
 }
 
 /// Exhaustive search over the real-time-respecting orders, memoised on (set done, value).
-fn linearizable(w: &Window) -> bool {
+/// Returns a witness order (indices into `w.ops`) when the window is linearizable.
+fn linearize(w: &Window) -> Option<Vec<usize>> {
     let n = w.ops.len();
-    if n > 60 {
-        return false;
+    if n > 60 || w.ops.iter().any(|o| o.inv >= o.ret) {
+        return None;
     }
-    if w.ops.iter().any(|o| o.inv >= o.ret) {
-        return false;
-    }
-    let mut seen: HashMap<(u64, Option<Vec<u8>>), ()> = HashMap::new();
-    fn go(w: &Window, done: u64, st: &Option<Vec<u8>>, seen: &mut HashMap<(u64, Option<Vec<u8>>), ()>) -> bool {
+    fn go(w: &Window, done: u64, st: &Option<Vec<u8>>, seen: &mut HashSet<(u64, Option<Vec<u8>>)>, order: &mut Vec<usize>) -> bool {
         let n = w.ops.len();
         if done == (1u64 << n) - 1 {
             return true;
         }
-        if seen.contains_key(&(done, st.clone())) {
+        if seen.contains(&(done, st.clone())) {
             return false;
         }
         for i in 0..n {
@@ -194,14 +191,7 @@ fn linearizable(w: &Window) -> bool {
             }
             let o = &w.ops[i];
             // minimal: no other remaining operation returned before o was invoked
-            let mut minimal = true;
-            for j in 0..n {
-                if j != i && done & (1 << j) == 0 && w.ops[j].ret < o.inv {
-                    minimal = false;
-                    break;
-                }
-            }
-            if !minimal {
+            if (0..n).any(|j| j != i && done & (1 << j) == 0 && w.ops[j].ret < o.inv) {
                 continue;
             }
             let mut cur = st.clone();
@@ -216,18 +206,31 @@ fn linearizable(w: &Window) -> bool {
                     cur = nx;
                 }
             }
-            if ok && go(w, done | (1 << i), &cur, seen) {
-                return true;
+            if ok {
+                order.push(i);
+                if go(w, done | (1 << i), &cur, seen, order) {
+                    return true;
+                }
+                order.pop();
             }
         }
-        seen.insert((done, st.clone()), ());
+        seen.insert((done, st.clone()));
         false
     }
-    go(w, 0, &w.init, &mut seen)
+    let mut seen = HashSet::new();
+    let mut order = Vec::new();
+    if go(w, 0, &w.init, &mut seen, &mut order) { Some(order) } else { None }
+}
+fn linearizable(w: &Window) -> bool {
+    linearize(w).is_some()
 }
 
+/// The window as a Coq term.  The operations are listed in the witness order when there is one:
+/// `lin_check` is a complete search, so the listing order cannot change its answer, only how
+/// soon the depth-first search meets a linearization.
 fn window_term(w: &Window, verdict: bool) -> String {
-    let ops = clist(w.ops.iter(), |o| {
+    let idx: Vec<usize> = linearize(w).unwrap_or_else(|| (0..w.ops.len()).collect());
+    let ops = clist(idx.iter().map(|&i| &w.ops[i]), |o| {
         format!("Oc {} {} {} {} {}", o.id, o.inv, o.ret, clist(o.prims.iter(), prim_term), clist(o.reps.iter(), rep_term))
     });
     format!("W2 {} {} {}", copt(&w.init, |v| chex(v)), ops, cbool(verdict))
@@ -456,7 +459,7 @@ struct CaseRun {
 }
 
 fn run_case(rt: &tokio::runtime::Runtime, nshards: usize, keys: &[String], mode: Mode,
-            scripts: &[Vec<Vec<Step>>], rounds: usize) -> CaseRun {
+            scripts: &[Vec<Vec<Step>>], rounds: usize, wave: bool) -> CaseRun {
     let keys: Arc<Vec<String>> = Arc::new(keys.to_vec());
     let scripts: Arc<Vec<Vec<Vec<Step>>>> = Arc::new(scripts.to_vec());
     rt.block_on(async move {
@@ -477,6 +480,10 @@ fn run_case(rt: &tokio::runtime::Runtime, nshards: usize, keys: &[String], mode:
                     barrier.wait().await;
                     let mut out = Vec::new();
                     for st in scripts[c][round].iter() {
+                        if wave {
+                            // release the j-th command of every client at the same moment
+                            barrier.wait().await;
+                        }
                         out.push(run_step(&state, &keys, st).await);
                     }
                     out
@@ -633,21 +640,26 @@ fn main() {
         let per_round_total = 14usize;
         let per_client = (per_round_total / nclients).clamp(1, 4);
         let mut serial = 0u64;
+        // wave mode: every client issues the same number of commands per round and the j-th
+        // commands of all clients are released together by a barrier (maximal overlap)
+        let wave = rng.gen_bool(0.7);
+        let wave_len: Vec<usize> = (0..rounds).map(|_| rng.gen_range(1..=per_client)).collect();
         let scripts: Vec<Vec<Vec<Step>>> = (0..nclients).map(|c| {
-            (0..rounds).map(|_| {
-                let n = rng.gen_range(1..=per_client);
+            (0..rounds).map(|r| {
+                let n = if wave { wave_len[r] } else { rng.gen_range(1..=per_client) };
                 // a batch counts once per key it touches; keep the round total <= 14 per key
                 (0..n).map(|_| gen_step(&mut rng, mode, nkeys, c, &mut serial, eval)).collect()
             }).collect()
         }).collect();
 
-        let run = match std::panic::catch_unwind(std::panic::AssertUnwindSafe(|| run_case(&rt, nshards, &keys, mode, &scripts, rounds))) {
+        let run = match std::panic::catch_unwind(std::panic::AssertUnwindSafe(|| run_case(&rt, nshards, &keys, mode, &scripts, rounds, wave))) {
             Ok(r) => r,
             Err(_) => CaseRun { windows: vec![], panicked: Some("panic while driving the case".into()) },
         };
         out.count(&format!("shards:{}", nshards));
         out.count(&format!("clients:{}", nclients));
         out.count(&format!("mode:{:?}", mode));
+        out.count(if wave { "release:wave" } else { "release:free" });
         for c in scripts.iter() { for r in c.iter() { for s in r.iter() { out.count(&format!("via:{:?}", s.via)); for (_, p) in s.items.iter() { out.count(&format!("prim:{}", match p { Prim::Get => "GET", Prim::Set(_) => "SET", Prim::Incr => "INCR", Prim::Append(_) => "APPEND", Prim::Del => "DEL" })); } } } }
         if let Some(p) = &run.panicked {
             out.violation(i, "a client task or the node panicked during a concurrent run", json!({"panic": p, "shards": nshards, "clients": nclients}));
@@ -669,6 +681,7 @@ fn main() {
         out.count(&format!("windows:{}", run.windows.len()));
         out.count(&format!("max_window_ops:{}", maxlen));
         out.count(if overlaps > 0 { "overlap:yes" } else { "overlap:no" });
+        out.count(&format!("overlapping_pairs:{}", match overlaps { 0 => "0", 1..=3 => "1-3", 4..=9 => "4-9", 10..=29 => "10-29", _ => "30+" }));
         if !bad.is_empty() {
             out.violation(i, "per-key history of a concurrent run is not linearizable", json!({
                 "shards": nshards, "clients": nclients, "mode": format!("{:?}", mode), "keys": keys,
@@ -677,7 +690,7 @@ fn main() {
         }
         let term = format!("K2 {}", clist(terms.iter(), |t| format!("({})", t)));
         if args.only.is_some() {
-            println!("case {}: shards {} clients {} mode {:?} keys {:?} rounds {}", i, nshards, nclients, mode, keys, rounds);
+            println!("case {}: shards {} clients {} mode {:?} keys {:?} rounds {} wave {}", i, nshards, nclients, mode, keys, rounds, wave);
             for (w, t) in run.windows.iter().zip(terms.iter()) {
                 println!("  key {:?} round {} ({} ops, {} overlapping pairs): {}", w.key, w.round, w.ops.len(), overlap_pairs(w), t);
             }
